@@ -31,7 +31,7 @@ REQUIRED_LABELS = {
     "thorough": ["pair_same_recipe", "pair_other_type", "pair_clone", "pair_load_twice", "project_pair", "inplace_list_mutation", "reverse_direction", "save_load_a"]
     + ["type_" + t for t in build.attachable_types()],
 }
-INPLACE = ("arr", "mcmap", "harm", "wave", "s_map", "s_point", "s_sample_new", "s_sample_field", "s_env", "m_map", "m_label", "embedded", "effect")
+INPLACE = ("arr", "mcmap", "harm", "wave", "s_map", "s_point", "s_sample_new", "s_sample_field", "s_env", "m_map", "m_map_inplace", "m_label", "embedded", "effect")
 
 
 def exhaustive(tier):
@@ -46,6 +46,9 @@ def plan(tier):
     for t in ("MetaModule", "MetaModule", "Sampler"):
         descs.append({"kind": "nested", "type": t, "examples": per, "max_mut": k})
     # copies made by Python itself (copy.deepcopy) and by clone(), edited through the type-specific API, for every type that has a payload
+    # files whose array chunks hold fewer items than today's length (written by older SunVox versions): two loads of one
+    # such file, a module constructed before and one constructed after share nothing
+    descs.append({"kind": "short_arrays"})
     descs.append({"kind": "copies", "types": ["SpectraVoice", "MultiSynth", "MultiCtl", "WaveShaper", "Fmx", "Generator", "AnalogGenerator", "Sampler", "MetaModule", "VorbisPlayer"], "examples": 6 if tier == "quick" else 60, "max_mut": 4})
     return descs
 
@@ -339,10 +342,72 @@ def run_case(ctx, case):
     return labels
 
 
+def int_arrays_of(tname):
+    from rv.chunks import ArrayChunk
+
+    mod = build.cls_of(tname)()
+    return [(k, v.chnm, v.length, v.element_size) for k, v in vars(mod).items() if isinstance(v, ArrayChunk) and v.values and all(type(x) is int for x in v.values)]
+
+
+def run_short_array(tname, attr, chnm, length, esize, cut):
+    from rv.api import Synth
+
+    cls = build.cls_of(tname)
+    earlier = cls()
+    earlier_bytes = Synth(earlier).read()
+    pristine = list(getattr(earlier, attr).values)
+    src = cls()
+    vals = getattr(src, attr).values
+    vals[0] = (vals[0] + 1) % (1 << (8 * esize - 1))  # something to write
+    data, n = build.short_array_chunk(Synth(src).read(), chnm, cut * esize)
+    if n == 0:
+        return False
+    a = load(data).module
+    b = load(data).module
+    vb = list(getattr(b, attr).values)
+    va = getattr(a, attr).values
+    for j in sorted({0, len(va) // 2, len(va) - 1}):
+        va[j] = (va[j] + 3) % (1 << (8 * esize - 1))
+    where = "%s.%s loaded twice from a file holding %d of %d items, one load edited in place" % (tname, attr, cut, length)
+    if list(getattr(b, attr).values) != vb:
+        raise PropertyViolation("C17.short_array.loads_share", where + ": the other load changed", key="C17.short_array:" + tname)
+    if list(getattr(earlier, attr).values) != pristine or Synth(earlier).read() != earlier_bytes:
+        raise PropertyViolation("C17.short_array.earlier_object", where + ": a module constructed before now holds / writes something else", key="C17.short_array:" + tname)
+    later = cls()
+    if list(getattr(later, attr).values) != pristine or Synth(later).read() != earlier_bytes:
+        raise PropertyViolation("C17.short_array.later_object", where + ": a module constructed afterwards does not start from the defaults", key="C17.short_array:" + tname)
+    return True
+
+
+def run_short_arrays(ctx):
+    for tname in build.attachable_types():
+        for attr, chnm, length, esize in int_arrays_of(tname):
+            for cut in sorted({1, length // 2, length - 1}):
+                ctx.case()
+                rec = {"short_array": [tname, attr, chnm, length, esize, cut]}
+                try:
+                    if run_short_array(tname, attr, chnm, length, esize, cut):
+                        ctx.mark_nontrivial(rec)
+                        ctx.label("short_array_file_loaded_twice")
+                except PropertyViolation as v:
+                    ctx.check(False, v.sub_oracle, v.detail, key=v.key, recipe={"case": rec})
+                except Exception as e:  # noqa: BLE001
+                    from vlib.harness import as_violation
+
+                    v = as_violation(e, "C17", "short_array")
+                    if v is None:
+                        raise
+                    ctx.check(False, v.sub_oracle, "%r: %s" % (rec, v.detail), key=v.key, recipe={"case": rec})
+            ctx.sample({"short_array": [tname, attr, length]})
+
+
 def run_shard(ctx, desc):
     import rv.api  # noqa: F401
 
     record_pristine()
+    if desc["kind"] == "short_arrays":
+        run_short_arrays(ctx)
+        return
 
     def body(case):
         ctx.case()
@@ -369,4 +434,7 @@ def run_shard(ctx, desc):
 
 
 def replay(ctx, doc):
+    if "short_array" in doc["recipe"]["case"]:
+        run_short_array(*doc["recipe"]["case"]["short_array"])
+        return
     run_case(ctx, doc["recipe"]["case"])
